@@ -78,6 +78,16 @@ CHECKS = {
             'DESIGN.md §4 C16',
             'Trusted: serde_derive expansion, rustc. Not decided: behaviour of concrete data formats.',
             'witness compilation + abstract interpretation of the visitor + derived-impl facts (serde configuration)'),
+    'C03': ('other',
+            'Clause level: the dispatch of every operator is decided for every combination of operand types (14 binary x 36 + 2 unary x 6 cases) by abstract interpretation of Operator::eval with symbolic payloads: two integers go to exactly the matching checked_* method (operands in order, result Int), other numeric pairs are converted to float and combined with the matching core::ops method (result Float), `^` always pow -> Float, string `+` concatenates, comparisons use the matching PartialOrd method, ==/!= are Value\'s derived equality, &&/||/! accept only booleans, every other type combination is a type error. The i64 checked_* implementations forward to i64::checked_* and turn None into the matching arithmetic error with operands in order. A compile-fail witness shows generic integer arithmetic cannot bypass the checked methods. Numeric values are not decided.',
+            'DESIGN.md §4 C03',
+            'Trusted: nightly rustc MIR; i64::checked_*, IEEE-754 operations, PartialOrd of std types. Accepted-idiom caveat: a value-dependent guard inside an arm (more than one path per type combination) is reported as a violation.',
+            'per-arm abstract interpretation over the full operand-type matrix + compile-fail witness'),
+    'C10': ('other',
+            'Clause level: builtin_function(name) is interpreted for every name to obtain its closure; each closure is interpreted over a matrix of argument shapes/types: math::X / rounding / bit operations reach exactly the same-named numeric-trait method with tuple[0], tuple[1] in order and the f64/i64 implementations forward to the same-named std method; result typing (Float/Int/Boolean, typeof table, abs keeps type and reports overflow); the code accepts every documented argument amount; len and str::substring share String::len and slice with str::get; min/max/if return one of their arguments (no sentinel constant reaches a result). Numeric results themselves are not decided.',
+            'DESIGN.md §4 C10',
+            'Trusted: nightly rustc MIR; libm / f64 methods, i64 bit operations, str methods (std); documentation table as arity oracle. Not decided: values of shifts outside 0..63, NaN handling of min/max, bytes-vs-characters of len (only mutual consistency).',
+            'builtin table by abstract interpretation (name -> closure -> trait method -> std method) vs documentation oracle'),
 }
 
 PENDING_REASON = 'check not yet built in this revision of the framework (design in DESIGN.md); not claimed until its rules run'
